@@ -11,6 +11,8 @@ CONSTANTS
   CRProg <- R_CR
   Forms = {"fresh"}
   Colls = {}
+  LAs <- NoLA_R
+  DropOn = FALSE
   QuitOn = FALSE
   QuitDeferred = FALSE
   DefCap = 1
